@@ -431,6 +431,20 @@ class Escape:
             if d in ("io.BufferedReader", "io.BufferedRandom") and recv.args:
                 return self.stream_kind(f, recv.args[0], depth + 1)
             return "unknown"
+        if isinstance(recv, ast.IfExp):
+            kb, ko = self.stream_kind(f, recv.body, depth + 1), self.stream_kind(f, recv.orelse, depth + 1)
+            if kb == ko == "bytesio":
+                return "bytesio"
+            # `io.BytesIO(p) if isinstance(p, bytes) else p` - the conditional-expression spelling of the rebind idiom
+            t, taken = recv.test, kb
+            if isinstance(t, ast.UnaryOp) and isinstance(t.op, ast.Not):
+                t, taken = t.operand, ko
+            if isinstance(t, ast.Call) and dotted(t.func) == "isinstance" and len(t.args) == 2 and dotted(t.args[0]) in params(f.node) \
+                    and dotted(t.args[1]) in ("bytes", "(bytes, bytearray)") and taken == "bytesio" and all(v is recv for _s, v in assignments_to(f.node, dotted(t.args[0]))) \
+                    and self._all_callers_pass_bytes(f, dotted(t.args[0])):
+                self.facts_used.append(f"stream-kind: {f.fq}({dotted(t.args[0])}) is bytes at every reachable call site -> BytesIO")
+                return "bytesio"
+            return "unknown"
         if isinstance(recv, ast.Name):
             defs = assignments_to(f.node, recv.id)
             kinds = set()
@@ -442,7 +456,8 @@ class Escape:
             if recv.id in params(f.node):
                 # the `if isinstance(p, bytes): p = io.BytesIO(p)` idiom: kind is bytesio iff all reachable
                 # call sites pass bytes
-                if defs and kinds == {"bytesio"} and self._isinstance_bytes_rebind(f, recv.id) and self._all_callers_pass_bytes(f, recv.id):
+                if defs and kinds == {"bytesio"} and (self._isinstance_bytes_rebind(f, recv.id) or all(isinstance(v, ast.IfExp) for _s, v in defs)) \
+                        and self._all_callers_pass_bytes(f, recv.id):
                     self.facts_used.append(f"stream-kind: {f.fq}({recv.id}) is bytes at every reachable call site -> BytesIO")
                     return "bytesio"
                 return "unknown"
@@ -605,10 +620,45 @@ class Escape:
                     o = origin(f.node, x)
                     if isinstance(o, ast.Call) and isinstance(o.func, ast.Attribute) and o.func.attr == "read" and dotted(o.func.value) == rname:
                         ok = True
+                    elif isinstance(x, ast.Name) and self._drawn_from_reading_generator(f, x.id, rname):
+                        ok = True
                 if ok:
                     continue
             return False
         self.facts_used.append(f"give-back: {f.fq}: seek({src(off)}, SEEK_CUR) returns bytes this function read from {rname}")
+        return True
+
+    def _drawn_from_reading_generator(self, f: Func, name: str, rname: str) -> bool:
+        """`name` is only bound as the target of `for name in self.G(..)` with G a generator method of the same object whose
+        every yielded value is (a length-preserving call on) a chunk it read from the same stream attribute, and which
+        never seeks that stream: what the consumer accumulates was consumed from the stream during this call."""
+        if not rname.startswith("self."):
+            return False
+        defs = assignments_to(f.node, name)
+        if not defs:
+            return False
+        for st, v in defs:
+            if not isinstance(st, (ast.For, ast.AsyncFor)) or dotted(st.target) != name or not isinstance(st.iter, ast.Call):
+                return False
+            if not (isinstance(st.iter.func, ast.Attribute) and dotted(st.iter.func.value) == "self"):
+                return False
+            cal = self.rs.resolve_call(f, st.iter)
+            g = cal.func if cal.kind == "func" else None
+            if g is None:
+                return False
+            ys = [y for y in ast.walk(g.node) if isinstance(y, (ast.Yield, ast.YieldFrom))]
+            if not ys or any(isinstance(y, ast.YieldFrom) or y.value is None for y in ys):
+                return False
+            for c in fn_calls(g.node):
+                if isinstance(c.func, ast.Attribute) and dotted(c.func.value) == rname and c.func.attr not in ("read", "tell"):
+                    return False
+            for y in ys:
+                e = y.value
+                if isinstance(e, ast.Call) and not (isinstance(e.func, ast.Attribute) and e.func.attr == "read"):
+                    e = e.args[0] if e.args else None
+                o = origin(g.node, e) if e is not None else None
+                if not (isinstance(o, ast.Call) and isinstance(o.func, ast.Attribute) and o.func.attr == "read" and dotted(o.func.value) == rname):
+                    return False
         return True
 
     def _is_wrapper_offset(self, f: Func, off: Optional[ast.AST]) -> bool:
@@ -641,6 +691,34 @@ class Escape:
         if isinstance(e, ast.BoolOp):
             return all(self.nonneg(f, v, at, depth + 1) for v in e.values)
         if isinstance(e, ast.BinOp):
+            if isinstance(e.op, (ast.Add, ast.Sub)):
+                # a sum with subtracted terms in any order: each subtracted term is matched with a distinct added term that a
+                # dominating comparison places above it (b <= a), the remaining added terms are non-negative
+                pos, neg = [], []
+
+                def flat(x, sign):
+                    x = strip_cast(x)
+                    if isinstance(x, ast.BinOp) and isinstance(x.op, ast.Add):
+                        flat(x.left, sign)
+                        flat(x.right, sign)
+                    elif isinstance(x, ast.BinOp) and isinstance(x.op, ast.Sub):
+                        flat(x.left, sign)
+                        flat(x.right, -sign)
+                    else:
+                        (pos if sign > 0 else neg).append(x)
+
+                flat(e, 1)
+                if neg and len(pos) + len(neg) > 2:
+                    left = list(pos)
+                    matched = True
+                    for nterm in neg:
+                        hit = next((pt for pt in left if self._ordered(f, nterm, pt, at)), None)
+                        if hit is None:
+                            matched = False
+                            break
+                        left.remove(hit)
+                    if matched and all(self.nonneg(f, pt, at, depth + 1) for pt in left):
+                        return True
             if isinstance(e.op, (ast.Add, ast.Mult, ast.FloorDiv, ast.Mod, ast.BitOr, ast.BitAnd, ast.LShift, ast.RShift)):
                 return self.nonneg(f, e.left, at, depth + 1) and self.nonneg(f, e.right, at, depth + 1)
             if isinstance(e.op, ast.Sub):
@@ -1137,8 +1215,12 @@ class Escape:
                 if idx == 0:
                     return True
                 return False
-            if isinstance(it.func, ast.Attribute) and it.func.attr == "most_common":
-                # Counter(x).most_common(): (element of x, count >= 1)
+            if d in ("itertools.chain", "chain") and it.args and not it.keywords:
+                return all(self._elems_nonneg(f, a, at, idx, depth + 1) for a in it.args)
+            if isinstance(it.func, ast.Attribute) and it.func.attr in ("most_common", "items") and \
+                    (it.func.attr == "most_common" or (isinstance(origin(f.node, it.func.value), ast.Call)
+                                                        and dotted(origin(f.node, it.func.value).func) in ("collections.Counter", "Counter"))):
+                # Counter(x).most_common() / Counter(x).items(): (element of x, count >= 1)
                 if idx == 1:
                     return True
                 base = origin(f.node, it.func.value)
@@ -1186,24 +1268,11 @@ class Escape:
         if cal.kind != "struct" or not cal.struct[2].endswith("IMAGE_DOS_HEADER") or not parse.args:
             return False
         fh = dotted(parse.args[0])
-        # the statement before the parse (same block) is fh.seek(o)
-        fv = FuncView.of(f.node)
-        parent = fv.parent.get(id(pst))
-        body = None
-        for name in ("body", "orelse", "finalbody"):
-            b = getattr(parent, name, None)
-            if isinstance(b, list) and pst in b:
-                body = b
-        if body is None:
+        # the stream is positioned by an absolute fh.seek(o) when the parse starts
+        sk = self._positioning_seek(f, pst, fh)
+        if sk is None:
             return False
-        i = body.index(pst)
-        if i == 0:
-            return False
-        prev = body[i - 1]
-        if not (isinstance(prev, ast.Expr) and isinstance(prev.value, ast.Call) and isinstance(prev.value.func, ast.Attribute) and prev.value.func.attr == "seek"
-                and dotted(prev.value.func.value) == fh and len(prev.value.args) == 1):
-            return False
-        o = prev.value.args[0]
+        o = sk.args[0]
         if not isinstance(o, ast.Name):
             return False
         odefs = assignments_to(f.node, o.id)
@@ -1227,9 +1296,133 @@ class Escape:
         self.facts_used.append(f"validated-offset: {f.fq}: {mz.id} parsed at the offset find_mz_offset validated (0 < e_lfanew)")
         return True
 
+    @staticmethod
+    def _stmt_header(st: ast.AST) -> List[ast.AST]:
+        if isinstance(st, (ast.If, ast.While)):
+            return [st.test]
+        if isinstance(st, (ast.For, ast.AsyncFor)):
+            return [st.iter]
+        if isinstance(st, (ast.With, ast.AsyncWith)):
+            return [i.context_expr for i in st.items]
+        if isinstance(st, ast.Try) or st.__class__.__name__ == "TryStar" or isinstance(st, (ast.FunctionDef, ast.AsyncFunctionDef, ast.ClassDef)):
+            return []
+        return [st]
+
+    def _touches_stream(self, st: ast.AST, fh: str) -> bool:
+        """the statement (its header, for a compound one) calls a method of the stream or hands the stream to a call"""
+        for h in self._stmt_header(st):
+            for c in ast.walk(h):
+                if isinstance(c, ast.Call):
+                    if isinstance(c.func, ast.Attribute) and dotted(c.func.value) == fh:
+                        return True
+                    if any(dotted(a) == fh for a in c.args) or any(dotted(k.value) == fh for k in c.keywords):
+                        return True
+        return False
+
+    def _positioning_seek(self, f: Func, pst: ast.AST, fh: str) -> Optional[ast.Call]:
+        """The absolute `fh.seek(X)` that fixes the position of stream `fh` when statement `pst` starts: it dominates `pst`
+        and no other statement touching the stream lies on a way from it to `pst`."""
+        cfg = self.ctx.cfg(f)
+        if not cfg.has(pst):
+            return None
+        pn = cfg.node(pst)
+        sts = [st for st in statements(f.node) if cfg.has(st)]
+        touch = [st for st in sts if st is not pst and self._touches_stream(st, fh)]
+        for st in touch:
+            if not (isinstance(st, ast.Expr) and isinstance(st.value, ast.Call) and isinstance(st.value.func, ast.Attribute) and st.value.func.attr == "seek"
+                    and dotted(st.value.func.value) == fh and st.value.args):
+                continue
+            c = st.value
+            wh = c.args[1] if len(c.args) > 1 else kwarg(c, "whence")
+            if not (wh is None or is_const(wh, 0) or (dotted(wh) or "").endswith("SEEK_SET")):
+                continue
+            n = cfg.node(st)
+            if not cfg.dominates(n, pn):
+                continue
+            if any(cfg.reaches(n, cfg.node(t), avoiding=[pn]) and cfg.reaches(cfg.node(t), pn, avoiding=[n]) for t in touch if t is not st):
+                continue
+            return c
+        return None
+
+    def _validated_file_header(self, f: Func, pst: ast.AST, parse: ast.Call) -> bool:
+        """`IMAGE_FILE_HEADER(fh)` parsed at o + 4 + mz.e_lfanew with mz the DOS header re-parsed at the offset o that
+        find_mz_offset returned: find_mz_offset returns an offset only after this very parse succeeded there."""
+        if not parse.args or dotted(parse.args[0]) is None:
+            return False
+        fh = dotted(parse.args[0])
+        sk = self._positioning_seek(f, pst, fh)
+        if sk is None:
+            return False
+        tgt = sk.args[0]
+        if isinstance(tgt, ast.Name):
+            tgt = origin(f.node, tgt)
+        mzs = {dotted(a.value) for a in ast.walk(tgt) if isinstance(a, ast.Attribute) and a.attr == "e_lfanew" and isinstance(a.value, ast.Name)}
+        if len(mzs) != 1:
+            return False
+        mzn = mzs.pop()
+        if not self._validated_dos(f, ast.Name(id=mzn, ctx=ast.Load()), pst):
+            return False
+        dpst = assignments_to(f.node, mzn)[0][0]
+        dsk = self._positioning_seek(f, dpst, fh)
+        if dsk is None:
+            return False
+        from .absint import sympoly, SymPoly
+
+        a, o = sympoly(tgt), sympoly(dsk.args[0])
+        if a is None or o is None or (a - o - SymPoly.const(4) - SymPoly.atom(f"{mzn}.e_lfanew")).const_value() != 0:
+            return False
+        # find_mz_offset: every offset it returns had IMAGE_FILE_HEADER parsed at <returned> + 4 + <dos>.e_lfanew
+        g = self.repo.func("pe.find_mz_offset")
+        cfgg = self.ctx.cfg(g)
+        rets = [s2 for s2 in statements(g.node) if isinstance(s2, ast.Return) and s2.value is not None and not (isinstance(s2.value, ast.Constant) and s2.value.value is None)]
+        if not rets:
+            return False
+        for r in rets:
+            sites = [(r, r.value)]
+            if isinstance(r.value, ast.Name):
+                sites = [(st2, v) for st2, v in assignments_to(g.node, r.value.id) if v is not None and not (isinstance(v, ast.Constant) and v.value is None)]
+                if not sites:
+                    return False
+            for site, val in sites:
+                rp = sympoly(val)
+                ok = False
+                for st2 in statements(g.node):
+                    v2 = getattr(st2, "value", None)
+                    if not (isinstance(st2, (ast.Assign, ast.AnnAssign, ast.Expr)) and isinstance(v2, ast.Call) and cfgg.has(st2) and cfgg.has(site)):
+                        continue
+                    cal2 = self.rs.resolve_call(g, v2)
+                    if cal2.kind != "struct" or not cal2.struct[2].endswith("IMAGE_FILE_HEADER") or not v2.args:
+                        continue
+                    if not cfgg.dominates(cfgg.node(st2), cfgg.node(site)):
+                        continue
+                    sk2 = self._positioning_seek(g, st2, dotted(v2.args[0]) or "")
+                    if sk2 is None or rp is None:
+                        continue
+                    t2 = sk2.args[0]
+                    if isinstance(t2, ast.Name):
+                        t2 = origin(g.node, t2)
+                    p2 = sympoly(t2)
+                    if p2 is None:
+                        continue
+                    rest = p2 - rp - SymPoly.const(4)
+                    # the remainder is exactly one `<name>.e_lfanew` atom
+                    if len(rest.terms) == 1:
+                        (k, cf), = rest.terms.items()
+                        if cf == 1 and len(k) == 1 and str(k[0]).endswith(".e_lfanew"):
+                            ok = True
+                            break
+                if not ok:
+                    return False
+        self.facts_used.append(f"validated-offset: {f.fq}: IMAGE_FILE_HEADER re-parsed where find_mz_offset parsed it")
+        return True
+
     def _find_mz_validates(self) -> bool:
         """find_mz_offset returns start+offset only under `mz.e_lfanew > 0` on the header parsed at that offset."""
         g = self.repo.func("pe.find_mz_offset")
+        if _memoised(g.node):
+            # a remembered answer says nothing about the bytes the stream holds now (the same file object may be handed in
+            # again with other content): the validation did not necessarily run on this content
+            return False
         rets = [s for s in statements(g.node) if isinstance(s, ast.Return) and s.value is not None and not (isinstance(s.value, ast.Constant) and s.value.value is None)]
         if not rets:
             return False
@@ -1280,10 +1473,14 @@ class Escape:
     def _validated_parse(self, f: Func, st: ast.AST, c: ast.Call, cal) -> bool:
         """Struct parses that cannot hit EOF: the re-parse of the DOS header at the offset find_mz_offset validated
         (the same parse succeeded there)."""
+        if cal.struct[2].endswith("IMAGE_FILE_HEADER") and getattr(st, "value", None) is c and isinstance(st, (ast.Assign, ast.AnnAssign)):
+            return self._validated_file_header(f, st, c)
         if not cal.struct[2].endswith("IMAGE_DOS_HEADER"):
             return False
         if isinstance(st, ast.Assign) and len(st.targets) == 1 and isinstance(st.targets[0], ast.Name) and st.value is c:
             return self._validated_dos(f, st.targets[0], st)
+        if isinstance(st, ast.AnnAssign) and isinstance(st.target, ast.Name) and st.value is c:
+            return self._validated_dos(f, st.target, st)
         return False
 
     def _pack_fits(self, f: Func, st: ast.AST, c: ast.Call, cal) -> bool:
@@ -1778,8 +1975,31 @@ class Escape:
                 break
         return None
 
+    def _mapping_value_min_len(self, f: Func, target: ast.AST, it: ast.AST, name: str) -> Optional[int]:
+        """`for k, name in M.items()` / `for name in M.values()` with M the result of urllib.parse.parse_qs: every value is
+        a non-empty list (library contract: a key is only present with at least one value)."""
+        it = strip_cast(it)
+        if not (isinstance(it, ast.Call) and isinstance(it.func, ast.Attribute) and not it.args):
+            return None
+        if it.func.attr == "items":
+            if not (isinstance(target, (ast.Tuple, ast.List)) and len(target.elts) == 2 and dotted(target.elts[1]) == name):
+                return None
+        elif it.func.attr == "values":
+            if dotted(target) != name:
+                return None
+        else:
+            return None
+        m = origin(f.node, strip_cast(it.func.value))
+        if isinstance(m, ast.Call) and (dotted(m.func) or "").split(".")[-1] == "parse_qs":
+            self.facts_used.append("parse_qs values are non-empty lists")
+            return 1
+        return None
+
     def _elem_min_len(self, f: Func, st: ast.For, name: str) -> Optional[int]:
         """Length of each element when `name` iterates over pairs / n-grams."""
+        mv = self._mapping_value_min_len(f, st.target, st.iter, name)
+        if mv is not None:
+            return mv
         if dotted(st.target) != name:
             return None
         it = origin(f.node, strip_cast(st.iter))
@@ -1799,6 +2019,15 @@ class Escape:
             if dotted(it.func) in ("enumerate", "zip"):
                 return 2
         return None
+
+
+def _memoised(fn: ast.AST) -> bool:
+    """decorated with functools.lru_cache / functools.cache (bare or called)"""
+    for d in getattr(fn, "decorator_list", []):
+        t = d.func if isinstance(d, ast.Call) else d
+        if (dotted(t) or "").split(".")[-1] in ("lru_cache", "cache", "cached", "memoize", "memoise"):
+            return True
+    return False
 
 
 def _remove_name(e: ast.AST, name: str) -> Optional[ast.AST]:
@@ -1837,6 +2066,10 @@ def comprehension_patch(esc: Escape):
         if isinstance(base, ast.Name):
             # comprehension target in the enclosing statement
             for n in ast.walk(st) if isinstance(st, ast.AST) else []:
+                if isinstance(n, ast.comprehension):
+                    mv = esc._mapping_value_min_len(f, n.target, n.iter, base.id)
+                    if mv is not None:
+                        return mv
                 if isinstance(n, ast.comprehension) and dotted(n.target) == base.id:
                     it = origin(f.node, strip_cast(n.iter))
                     l = esc._iter_elem_len(f, it)
